@@ -11,6 +11,8 @@ package main
 //	tick  := "_" | act (";" act)*
 //	act   := "l" N                      ClientLog(INFO, "m<N>")
 //	       | "e" P ":" src ":" meta     EmitWithMetadata(batch(src), meta); P=1: return the collector's error
+//	       | "E" P ":" src              exchange: EmitWithMetadata(batch(src), <the InputMetadata this call saw>)
+//	                                    (a producer's E emits without metadata)
 //	       | "f" P                      Finish(); P=1: return the collector's error
 //	       | "r" N                      return RpcError{ValueError, "fail-<N>"}
 //	       | "p" N                      panic("panic-<N>")
@@ -171,6 +173,7 @@ type scriptAct struct {
 	MetaK  []string
 	MetaV  []string
 	HasMet bool
+	Echo   bool // the emit's metadata is the InputMetadata the call saw
 }
 
 func parseScriptProg(prog string) ([][]scriptAct, error) {
@@ -212,12 +215,17 @@ func parseScriptAct(a string) (scriptAct, error) {
 			return scriptAct{}, fmt.Errorf("bad act %q", a)
 		}
 		return scriptAct{Op: 'f', Prop: a == "f1"}, nil
-	case 'e':
+	case 'e', 'E':
 		parts := strings.SplitN(a[1:], ":", 3)
+		if a[0] == 'E' && len(parts) == 2 {
+			parts = append(parts, "")
+		} else if a[0] == 'E' {
+			return scriptAct{}, fmt.Errorf("bad act %q", a)
+		}
 		if len(parts) != 3 || (parts[0] != "0" && parts[0] != "1") || parts[1] == "" {
 			return scriptAct{}, fmt.Errorf("bad act %q", a)
 		}
-		act := scriptAct{Op: 'e', Prop: parts[0] == "1"}
+		act := scriptAct{Op: 'e', Prop: parts[0] == "1", Echo: a[0] == 'E'}
 		src := parts[1]
 		switch src[0] {
 		case 'c':
@@ -326,6 +334,12 @@ func runScriptTick(acts []scriptAct, input []int64, out *vgirpc.OutputCollector,
 				}
 			}
 			var meta map[string]string
+			if a.Echo && call.Kind == "exchange" && len(call.Keys) > 0 {
+				meta = map[string]string{}
+				for i, k := range call.Keys {
+					meta[k] = call.Values[i]
+				}
+			}
 			if a.HasMet {
 				meta = map[string]string{}
 				for i, k := range a.MetaK {
